@@ -25,7 +25,7 @@ use poulpy_core::layouts::{
 };
 use poulpy_core::{EncryptionLayout, GLWEAutomorphismKeyEncryptSk, GLWETensorKeyEncryptSk, ScratchTakeCore};
 use poulpy_hal::api::ScratchAvailable;
-use poulpy_hal::layouts::{Backend, DeviceBuf, GaloisElement, Module, Scratch};
+use poulpy_hal::layouts::{Backend, DeviceBuf, GaloisElement, Module, Scratch, WriterTo};
 use poulpy_hal::source::Source;
 use pvc_common::{Bk, CoreAll, HalAll};
 use serde::{Deserialize, Serialize};
@@ -132,6 +132,8 @@ pub struct Ctx<B: Cb, F: Real> {
     pub atks: HashMap<i64, GLWEAutomorphismKeyPrepared<DeviceBuf<B>, B>>,
     pub conj: GLWEAutomorphismKeyPrepared<DeviceBuf<B>, B>,
     pub enc: Encoder<F>,
+    /// serialised (non-prepared) forms of the evaluation keys, for cross-backend comparison (C10)
+    pub key_bytes: Vec<(String, Vec<u8>)>,
     pub tsk_layout: GLWETensorKeyLayout,
     pub atk_layout: GLWEAutomorphismKeyLayout,
     pub scratch_bytes: usize,
@@ -218,6 +220,12 @@ where
 
         let mut tsk_raw = GLWETensorKey::alloc_from_infos(&tsk_infos);
         module.glwe_tensor_key_encrypt_sk(&mut tsk_raw, &sk_raw, &tsk_infos, &mut xa, &mut xe, B::borrow(&mut scratch));
+        let mut key_bytes: Vec<(String, Vec<u8>)> = vec![];
+        {
+            let mut v = vec![];
+            tsk_raw.write_to(&mut v).expect("serialise tensor key");
+            key_bytes.push(("tensor_key".into(), v));
+        }
         let mut tsk = module.alloc_tensor_key_prepared_from_infos(&tsk_infos);
         module.prepare_tensor_key(&mut tsk, &tsk_raw, B::borrow(&mut scratch));
 
@@ -226,13 +234,18 @@ where
             module.glwe_automorphism_key_encrypt_sk(&mut atk, p_gal, &sk_raw, &atk_infos, &mut xa, &mut xe, B::borrow(&mut scratch));
             let mut prep = module.glwe_automorphism_key_prepared_alloc_from_infos(&atk_infos);
             module.glwe_automorphism_key_prepare(&mut prep, &atk, B::borrow(&mut scratch));
-            prep
+            let mut v = vec![];
+            atk.write_to(&mut v).expect("serialise automorphism key");
+            (prep, v)
         };
         let mut atks = HashMap::new();
         for &r in &p.rot_keys {
-            atks.insert(r, mk(module.galois_element(r)));
+            let (k, v) = mk(module.galois_element(r));
+            atks.insert(r, k);
+            key_bytes.push((format!("automorphism_key(rot {r})"), v));
         }
-        let conj = mk(-1);
+        let (conj, v) = mk(-1);
+        key_bytes.push(("automorphism_key(conjugation)".into(), v));
 
         let enc = Encoder::<F>::new(m).unwrap();
         let vecs: Vec<Vec<Cplx<F>>> = vec![
@@ -290,6 +303,7 @@ where
             atks,
             conj,
             enc,
+            key_bytes,
             tsk_layout: tsk_infos.layout,
             atk_layout: atk_infos.layout,
             scratch_bytes,
